@@ -94,7 +94,11 @@ func Drive(p *Property, o DriveOpts) int {
 
 	// verdict lines
 	viol := 0
-	os.MkdirAll(filepath.Join(o.VerifDir, "replays"), 0o755)
+	outDir := o.VerifDir
+	if d := os.Getenv("VERIF_OUT"); d != "" {
+		outDir = d
+	}
+	os.MkdirAll(filepath.Join(outDir, "replays"), 0o755)
 	sort.Slice(agg.Violations, func(i, j int) bool {
 		a, b := agg.Violations[i], agg.Violations[j]
 		if a.Family != b.Family {
@@ -107,7 +111,7 @@ func Drive(p *Property, o DriveOpts) int {
 		if i >= 25 {
 			continue
 		}
-		path := filepath.Join(o.VerifDir, "replays", fmt.Sprintf("%s_%s_%d_%d.json", p.ID, v.Family, v.Seed, v.Idx))
+		path := filepath.Join(outDir, "replays", fmt.Sprintf("%s_%s_%d_%d.json", p.ID, v.Family, v.Seed, v.Idx))
 		b, _ := json.MarshalIndent(v, "", " ")
 		os.WriteFile(path, b, 0o644)
 		fmt.Printf("VIOLATION property=%s replay=%s\n", p.ID, path)
